@@ -49,3 +49,14 @@ Definition dagree (c : dcase) : bool :=
   String.eqb (print_compact (dc_value c)) (dc_text c) &&
   match loads 1000 (dc_text c) with LValue v => json_exact v (dc_value c) | _ => false end.
 Definition ddisagreements (cs : list dcase) : list N := bad dagree cs 0%N.
+
+(* Decimal mode: json.loads(text, parse_float=Decimal, parse_constant=Decimal) *)
+Record mcase := mkM { mc_limit : nat; mc_text : string; mc_exp : texp }.
+Definition magree (c : mcase) : bool :=
+  match loads_mode FDecimal (mc_limit c) (mc_text c), mc_exp c with
+  | LValue v, TValue w => json_exact v w
+  | LError, TError => true
+  | LRecursion, TRecursion => true
+  | _, _ => false
+  end.
+Definition mdisagreements (cs : list mcase) : list N := bad magree cs 0%N.
